@@ -173,50 +173,70 @@ def opKid : Op → List Bytes
   | .killl c _ => [c] | .croot c => [c]
   | _ => []
 
+def opHasEmptyKey : Op → Bool
+  | .put k _ => k.isEmpty | .del k => k.isEmpty | .get k => k.isEmpty
+  | .cput _ k _ => k.isEmpty | .cget _ k => k.isEmpty | .cdel _ k => k.isEmpty
+  | _ => false
+
 def backendTag (hdr : String) (sc : Scan) (op : Op) (post : TS Mem) (out : String) : String :=
   let depth0 := sc.m.txs.isEmpty
-  if hasDangling post.base || hasDangling sc.m.base || out == "panic" then "child-tries-keyed-by-hash"
+  let region := match op with
+    | .put k _ => Logical.isChildKey k
+    | .del k => Logical.isChildKey k
+    | .clr p => overlapsRegion p
+    | .clrl p _ => overlapsRegion p
+    | .commit => (match sc.m.txs with | [d] => diffTouchesRegion d | _ => false)
+    | _ => false
+  if region then "child-root-key-unprotected"
+  else if hasDangling post.base || hasDangling sc.m.base || out == "panic" then
+    "child-tries-keyed-by-hash"
   else
     let stale := depth0 && (match op with
       | .cclr _ _ => true | .cclrl _ _ _ => true | .killl _ (some _) => true | _ => false)
     if stale then "child-root-stale-outside-tx"
     else
-      let region := match op with
-        | .put k _ => Logical.isChildKey k
-        | .del k => Logical.isChildKey k
-        | .clr p => overlapsRegion p
-        | .clrl p _ => overlapsRegion p
-        | .commit => (match sc.m.txs with | [d] => diffTouchesRegion d | _ => false)
-        | _ => false
-      if region then "child-root-key-unprotected"
-      else
-        let quirk := hdr == "1" || hdr == "3" || (match op with
-          | .clrl _ _ => depth0 | .cclrl _ _ _ => depth0 | .put k _ => k.isEmpty | .del k => k.isEmpty
-          | .get k => k.isEmpty | .commit => true | _ => false)
-        if quirk then "base-trie-c02" else ""
+      let quirk := hdr == "1" || hdr == "3" || opHasEmptyKey op || (match op with
+        | .clrl _ _ => depth0 | .cclrl _ _ _ => depth0 | _ => false)
+      if quirk then "base-trie-c02" else ""
 
 def tsTag (sc : Scan) (op : Op) (oI oS : Out) : String :=
   let depth0 := sc.i.txs.isEmpty
   let coll := sc.mainStrs.any (fun k => sc.kidStrs.contains k)
+  let noKid (c : Bytes) : Bool :=
+    (KMap.find c sc.s.top.kids).isNone && (KMap.find c sc.s.back.kids).isNone
+  let rootDeleted : Bool := match sc.i.txs with
+    | d :: _ => d.c.deletes.any Logical.isChildKey
+    | [] => false
   match op, oI, oS with
   | .croot _, _, _ => "child-root-ignores-overlay"
+  | .get k, _, _ =>
+    if Logical.isChildKey k && rootDeleted then "child-root-key-unprotected"
+    else if coll then "deletes-shared-by-main-and-child" else ""
+  | .next _, _, _ =>
+    if rootDeleted then "child-root-key-unprotected"
+    else if coll then "deletes-shared-by-main-and-child" else ""
+  | .ents, _, _ =>
+    if rootDeleted then "child-root-key-unprotected"
+    else if coll then "deletes-shared-by-main-and-child" else ""
   | .clrl _ n, .cnt a _, .cnt b _ =>
-    if coll then "deletes-shared-by-main-and-child"
+    if a == b && depth0 && n == 0 then "limit0-reports-remaining"
+    else if coll then "deletes-shared-by-main-and-child"
     else if a == b && !depth0 then "alldeleted-counts-nonmatching"
-    else if a == b && n == 0 then "limit0-reports-remaining"
     else ""
   | .cclrl c _ n, .cnt a _, .cnt b _ =>
-    if coll then "deletes-shared-by-main-and-child"
-    else if (KMap.find c sc.s.top.kids).isNone && (KMap.find c sc.s.back.kids).isNone && depth0 then
-      "nochild-reports-remaining"
+    if noKid c && depth0 then "nochild-reports-remaining"
+    else if a == b && depth0 && n == 0 then "limit0-reports-remaining"
+    else if coll then "deletes-shared-by-main-and-child"
     else if a == b && !depth0 then "alldeleted-counts-nonmatching"
-    else if a == b && n == 0 then "limit0-reports-remaining"
     else ""
   | .killl c _, .cnt _ _, .cnt _ _ =>
-    if coll then "deletes-shared-by-main-and-child"
-    else if (KMap.find c sc.s.top.kids).isNone && (KMap.find c sc.s.back.kids).isNone then
-      "nochild-reports-remaining"
-    else ""
+    if noKid c then "nochild-reports-remaining"
+    else if coll then "deletes-shared-by-main-and-child" else ""
+  | .cput c _ _, _, _ =>
+    if (match sc.i.txs with | d :: _ => KSet.has c d.c.deletes | [] => false) then
+      (if sc.mainStrs.contains c then "deletes-shared-by-main-and-child"
+       else "child-recreated-after-kill")
+    else if coll then "deletes-shared-by-main-and-child" else ""
   | _, _, _ => if coll then "deletes-shared-by-main-and-child" else ""
 
 /-- the first part of two `snap` outputs that differs, as the read op that produced it -/
